@@ -412,6 +412,8 @@ func (v *Verifier) structural(cfg PropConfig, sc StructuralCheck) []StructResult
 		return v.codecCoverage(cfg, sc)
 	case "clone_isolation":
 		return v.cloneIsolation(cfg, sc)
+	case "immutable_fields":
+		return v.immutableFields(cfg, sc)
 	case "callers_subset":
 		var a struct {
 			Callee  string   `json:"callee"`
